@@ -32,9 +32,11 @@ Proof.
                                                 && match fallback_for b (o_fallback o) with Some _ => true | None => false end
                                    | Filler _ => false
                                    end)) end.
-  2:{ intros [b|f]; [|reflexivity]. unfold fallback_for. destruct (bfb b), (o_fallback o); reflexivity. }
+  2:{ intros [b|f]; [|reflexivity]. unfold fallback_for.
+      destruct (bfb b), (o_fallback o), (side_eqb (bl b) (br b)), (side_eqb (br b) SCont); reflexivity. }
   cbn [bind]. set (h := existsb _ (items (o_bounds o))).
-  destruct (o_complement o), (o_compress o); cbn [negb andb]; try pass.
-  rewrite tie_ubl_is_forward_only. cbn [bind].
-  destruct (is_forward_only (items (o_bounds o))); cbn [andb]; [destruct h; cbn [negb]|]; pass.
+  (* every flag decided, whichever order the source tests them in *)
+  destruct (o_complement o), (o_compress o), h; cbn [negb andb bind];
+    rewrite ?tie_ubl_is_forward_only; cbn [bind];
+    try (destruct (is_forward_only (items (o_bounds o)))); cbn [negb andb]; pass.
 Qed.
